@@ -415,8 +415,8 @@ func rulePairSeqNum(p *Prog, r *Report) {
 			r.Bad(rule, n, construct, p.Pos(mu.Pos()), "the number stored is not a counter that is advanced with every child: siblings can get the same or a skipped number")
 		}
 	}
-	if cnt < 2 {
-		r.Unknown(rule, n, "tag sequence number stores", p.Pos(fn.Pos()), fmt.Sprintf("only %d stores under \"_seq\" found (2 confirmed by reading)", cnt))
+	if cnt < 1 {
+		r.Unknown(rule, n, "tag sequence number stores", p.Pos(fn.Pos()), "no store under \"_seq\" found")
 	}
 }
 
